@@ -30,7 +30,8 @@ Print Assumptions C15_conservation.
 
 (** Credits are matched one-to-one by renter-signed revisions: a step that credits
     anything persists exactly one revision of one contract, whose renter output fell and
-    host output rose by exactly the credited total, signed by that contract's renter key. *)
+    host output rose by exactly the credited total, signed by that contract's renter key;
+    and that contract is still revisable at the host (not renewed, proof height not reached). *)
 Theorem C15_credit_matched_by_signed_revision :
   ∀ s o s' evs r,
     step s o = (s', (evs, r)) → credited evs ≠ 0 ∨ (∃ pool k amt, EvCredit pool k amt ∈ evs) →
@@ -44,6 +45,7 @@ Theorem C15_credit_matched_by_signed_revision :
       c_revnum rev = N.succ (c_revnum existing) ∧
       c_rkey rev = c_rkey existing ∧
       0 ≤ c_renter rev ∧
+      c_revisable existing = true ∧ c_revisable rev = true ∧
       rsig_of o = Sig (c_rkey existing) (MRevision cid (c_revnum rev) (c_renter rev) (c_host rev)).
 Proof. exact credit_matched_by_signed_revision. Qed.
 Print Assumptions C15_credit_matched_by_signed_revision.
@@ -198,3 +200,23 @@ Theorem C15_attach_appends :
          ∀ q, q ∈ links s' a ↔ q ∈ links s a ∨ (r ≠ RErr ∧ (a, q) ∈ link_pairs es).
 Proof. exact attach_appends. Qed.
 Print Assumptions C15_attach_appends.
+
+(** No crediting RPC (fund accounts, replenish accounts, replenish pools) succeeds against a
+    contract that is no longer revisable: the state is unchanged and the client gets an error. *)
+Theorem C15_unrevisable_contract_not_credited :
+  ∀ s o cid con,
+    contracts s !! cid = Some con → c_revisable con = false →
+    (∃ deps rsig, o = Fund cid deps rsig) ∨
+    (∃ pool keys target chal rsig, o = Replenish pool cid keys target chal rsig) →
+    step s o = (s, ([], RErr)).
+Proof. exact unrevisable_contract_not_credited. Qed.
+Print Assumptions C15_unrevisable_contract_not_credited.
+
+(** Once unrevisable, a contract stays unrevisable and none of its outputs moves again. *)
+Theorem C15_unrevisable_contract_frozen :
+  ∀ s o s' out cid con,
+    contracts s !! cid = Some con → c_revisable con = false → step s o = (s', out) →
+    ∃ con', contracts s' !! cid = Some con' ∧ c_revisable con' = false ∧
+            c_renter con' = c_renter con ∧ c_host con' = c_host con ∧ c_revnum con' = c_revnum con.
+Proof. exact unrevisable_contract_frozen. Qed.
+Print Assumptions C15_unrevisable_contract_frozen.
